@@ -1,6 +1,21 @@
 mod props;
 
+/// `getrandom` ≥ 0.3 (behind `rand::rng()`, `SysRng`, hpke-rs) resolves libc's `getrandom` with
+/// `dlsym` on first use — which finds simcore's interposed definition — and probes it once per
+/// process with a zero-length call. If that first use happened inside a simulated run, the probe
+/// would advance the shim's per-thread call counter in that run only, and the run would see other
+/// "random" bytes than the same run executed later in the process. Do the first use here, before
+/// any run and while the shim still forwards to the kernel.
+/// (Belongs into `simcore::runner::cli_main`; kept here because this crate may not touch simcore.)
+fn warm_up_getrandom() {
+    use p2panda_encryption::crypto::hpke::hpke_seal;
+    use p2panda_encryption::crypto::x25519::SecretKey;
+    let pk = SecretKey::from_bytes([7u8; 32]).verifying_key().expect("x25519 public key");
+    let _ = hpke_seal(&pk, None, None, b"warm-up");
+}
+
 fn main() {
+    warm_up_getrandom();
     let props = props::all();
     std::process::exit(simcore::runner::cli_main(&props));
 }
